@@ -183,6 +183,10 @@ func discharge(sc *Script, obls []*Obligation, outDir string, secs int, thorough
 				switch stage {
 				case 1, 2:
 					return sc.query(o.Pos, o.Goal, false, abs, stage), short
+				case 5:
+					// a wider slice (relevance depth 4) for goals whose facts sit a few calls back in
+					// functions whose full query is too large for the solvers
+					return sc.query(o.Pos, o.Goal, false, abs, 4), secs
 				case 3:
 					return sc.query(o.Pos, o.Goal, false, true, 0), secs
 				}
@@ -191,7 +195,7 @@ func discharge(sc *Script, obls []*Obligation, outDir string, secs int, thorough
 			done := false
 			// strategy hint from an earlier run (which stage and solver proved this obligation): tried
 			// first, alone; the full staged portfolio follows if it does not prove the goal now
-			if h, ok := hints[o.Name]; ok && !thorough && !isCover && h.Stage >= 1 && h.Stage <= 4 && (h.Stage != 3 || abs) {
+			if h, ok := hints[o.Name]; ok && !thorough && !isCover && h.Stage >= 1 && h.Stage <= 5 && (h.Stage != 3 || abs) {
 				q, t := stageQuery(h.Stage)
 				r = runSolversOnly(tag+q, file, t, h.Solver)
 				if r.status == "unsat" {
@@ -212,6 +216,15 @@ func discharge(sc *Script, obls []*Obligation, outDir string, secs int, thorough
 					q, t := stageQuery(3)
 					r = runSolvers(tag+q, file, t, thorough)
 					o.Stage = 3
+				}
+				if r.status != "unsat" && r.status != "sat" && len(sc.lines) > 3000 {
+					q, t := stageQuery(5)
+					r5 := runSolvers(tag+q, file, t, false)
+					if r5.status == "unsat" {
+						r = r5
+						o.Stage = 5
+						done = true
+					}
 				}
 			}
 			if !done && r.status != "unsat" {
